@@ -354,6 +354,32 @@ class SymCArray:
         return self.vals[i]
 
 
+class SymStructArray:
+    """value of a ctypes array type whose elements are structures (e.g. OptionalInt * n)"""
+
+    def __init__(self, t, elems):
+        self.t = t
+        self.elems = list(elems)
+
+    def to_bytes(self):
+        out = []
+        for e in self.elems:
+            out.extend(e.to_bytes().bs)
+        return SymBytes(out)
+
+    @classmethod
+    def from_bytes(cls, t, sb):
+        bs = sb.bs if isinstance(sb, SymBytes) else list(sb)
+        et, n = t._type_, t._length_
+        sz = ctypes.sizeof(et)
+        if len(bs) < sz * n:
+            raise ValueError(f"Buffer size too small ({len(bs)} instead of at least {sz * n} bytes)")
+        return cls(t, [SymStruct.from_bytes(et, SymBytes(bs[i * sz:(i + 1) * sz])) for i in range(n)])
+
+    def __len__(self):
+        return len(self.elems)
+
+
 class SymBytes:
     """bytes of concrete length; each element an int or SInt in 0..255"""
 
@@ -386,7 +412,7 @@ class SymBytesFn:
 
 def has_sym(v, depth=4):
     """does value (shallowly, to ``depth``) contain symbolic leaves?"""
-    if isinstance(v, (Sym, SymStruct, SymBytes, SymBytesFn, SymCArray)):
+    if isinstance(v, (Sym, SymStruct, SymBytes, SymBytesFn, SymCArray, SymStructArray)):
         return True
     if depth <= 0:
         return False
